@@ -183,11 +183,13 @@ class Builder:
 
 # ------------------------------------------------------------------ known findings
 def load_known():
-    p = os.path.join(VERIF, 'known_findings.json')
-    try:
-        return json.load(open(p)).get('findings', [])
-    except Exception:
-        return []
+    out = []
+    for p in [os.path.join(VERIF, 'known_findings.json')] + sorted(glob.glob(os.path.join(VERIF, 'known_findings.d', '*.json'))):
+        try:
+            out += json.load(open(p)).get('findings', [])
+        except Exception as e:
+            log('cannot read', p, e)
+    return out
 
 
 def match_known(known, prop, key):
